@@ -18,7 +18,7 @@ na = []
 for p in props:
     pid = p["id"]
     e = reg["checks"].get(pid)
-    if e and os.path.exists(os.path.join(V, "checks", pid + ".py")):
+    if e and pid in reg.get("ready", []) and os.path.exists(os.path.join(V, "checks", pid + ".py")):
         c = {
             "property_id": pid,
             "quick_cmd": "./check %s --tier quick" % pid,
